@@ -59,6 +59,7 @@ type Spec struct {
 	RAdd     bool              `json:"reply_meta_add,omitempty"`
 	RCodec   byte              `json:"reply_codec_set,omitempty"`
 	Reply    string            `json:"reply_mode,omitempty"`
+	SessID   string            `json:"session_id_class,omitempty"` // how the proxy's downstream session got an id of its own
 	Class    string            `json:"class"`
 	Topo     string            `json:"topology"`
 }
@@ -97,10 +98,12 @@ var callDims = []dimTable{
 	{"meta", []string{"only-pid", "dup-keys", "punct", "utf8", "empty-value", "many", "long-value", "preset-realip", "dup-realip", "case-variants"}, []string{"only-pid", "dup-keys", "preset-realip"}},
 	{"pipe", []string{"gzip", "gzip-md5"}, nil},
 	{"status", []string{"404", "500", "502", "custom", "negative", "big", "code-99", "code-200", "handler-100", "handler-102", "handler-105", "handler-150", "handler-199",
-		"msg-empty", "msg-cause-empty", "msg-punct", "msg-utf8", "msg-long", "cause-empty", "cause-punct"}, []string{"404", "500", "custom", "handler-102"}},
+		"msg-empty", "msg-cause-empty", "msg-punct", "msg-utf8", "msg-long", "cause-empty", "cause-punct", "cause-utf8", "cause-long"}, []string{"404", "500", "custom", "handler-102"}},
 	{"rmeta", []string{"none", "dup-set", "dup-add", "punct", "utf8", "empty-value", "many", "long-value", "request-key", "realip-key"}, []string{"none", "dup-add"}},
 	{"rcodec", []string{"bytes-sets-xml", "json-sets-xml"}, nil},
 	{"reply", []string{"empty", "big"}, []string{"empty"}},
+	{"accept", []string{"bytes-accept-xml", "accept-unregistered", "accept-garbage"}, []string{"bytes-accept-xml"}},
+	{"sessid", []string{"postaccept", "setid-goroutine", "setid-handler", "setid-changed", "id-address-like", "id-punct", "postaccept+preset-realip", "setid-goroutine+preset-realip"}, []string{"postaccept", "setid-goroutine"}},
 }
 
 var pushDims = []dimTable{
@@ -111,6 +114,7 @@ var pushDims = []dimTable{
 	{"meta", []string{"only-pid", "dup-keys", "punct", "utf8", "empty-value", "many", "long-value", "preset-realip", "dup-realip", "case-variants"}, []string{"only-pid", "dup-keys", "preset-realip"}},
 	{"pipe", []string{"gzip", "gzip-md5"}, nil},
 	{"pstatus", []string{"handler-error"}, []string{"handler-error"}},
+	{"sessid", []string{"postaccept", "setid-goroutine", "setid-handler", "setid-changed", "id-address-like", "id-punct", "postaccept+preset-realip", "setid-goroutine+preset-realip"}, []string{"postaccept", "setid-goroutine"}},
 }
 
 func statusOf(class string) *protos.Triple {
@@ -153,6 +157,10 @@ func statusOf(class string) *protos.Triple {
 		return &protos.Triple{Code: 1001, Msg: strings.Repeat("long message ", 160), Cause: "c"}
 	case "cause-empty":
 		return &protos.Triple{Code: 1001, Msg: "m", Cause: ""}
+	case "cause-utf8":
+		return &protos.Triple{Code: 1001, Msg: "m", Cause: "größe 尺寸 ✓"}
+	case "cause-long":
+		return &protos.Triple{Code: 1001, Msg: "m", Cause: strings.Repeat("because of this and that; ", 120)}
 	case "cause-punct":
 		return &protos.Triple{Code: 1001, Msg: "m", Cause: `x&y=z%2 "q" +`}
 	}
@@ -366,6 +374,15 @@ func apply(s *Spec, dim, class string, r *core.Rand, tame bool) {
 		}
 	case "reply":
 		s.Reply = class
+	case "accept":
+		v := map[string]string{"bytes-accept-xml": "120", "accept-unregistered": "201", "accept-garbage": "abc"}[class]
+		s.Meta = append(s.Meta, pxy.KV{K: erpc.MetaAcceptBodyCodec, V: v})
+	case "sessid":
+		s.SessID = class
+		if i := strings.Index(class, "+preset-realip"); i > 0 {
+			s.SessID = class[:i]
+			s.Meta = append(s.Meta, pxy.KV{K: erpc.MetaRealIP, V: "203.0.113.7:4711"})
+		}
 	}
 }
 
@@ -785,9 +802,57 @@ func runPair(t *pxy.Topo, s *Spec) pairResult {
 	pl.Stat, pl.RMeta, pl.RAdd, pl.RCodec, pl.Reply = s.Stat, s.RMeta, s.RAdd, s.RCodec, s.Reply
 	res := pairResult{plan: pl}
 	b, other := s.Backend, 1-s.Backend
-	direct, proxied := t.CB[b].A, t.CP.A
+	via := t.CP // the caller -> proxy connection used for the proxied request
+	if s.SessID != "" {
+		// the proxy's downstream session carries an id of its own (unique per pair; ids are an index key)
+		defaultID := t.CP.B.ID()
+		id := "user-" + pid
+		switch s.SessID {
+		case "id-address-like":
+			id = fmt.Sprintf("198.51.100.1:%d", 1000+atomic.LoadInt64(&pidCtr)%60000)
+		case "id-punct":
+			id = "ключ user/7 &x=1 " + pid
+		}
+		switch s.SessID {
+		case "postaccept":
+			l, err := t.NewCallerLink(id)
+			if err != nil {
+				res.inconclusive = "extra caller connection: " + err.Error()
+				return res
+			}
+			defer l.CA.Sever(false)
+			via = l
+		case "setid-handler":
+			var got string
+			if tr, stuck := loginCall(t, id, &got); stuck != "" || tr.Code != 0 {
+				res.inconclusive = fmt.Sprintf("login call on the proxy peer: %+v %s", tr, stuck)
+				return res
+			}
+			defer t.CP.B.SetID(defaultID)
+		case "setid-changed":
+			t.CP.B.SetID(id + "-first")
+			w := Spec{Op: "call", Backend: b, Kind: "bytes", Method: prefixOf(b) + "/warmup", Body: []byte("w"), ResultAs: "bytes"}
+			if o := doCall(t.CP.A, t, &w, "no-plan"); o.Stuck != "" {
+				res.inconclusive = "warm-up call: " + o.Stuck
+				return res
+			}
+			t.CP.B.SetID(id)
+			defer t.CP.B.SetID(defaultID)
+		default: // set from another goroutine (this one) some time after the connection was accepted
+			t.CP.B.SetID(id)
+			defer t.CP.B.SetID(defaultID)
+		}
+		if via.B.ID() != id {
+			res.inconclusive = fmt.Sprintf("the downstream session has id %q, not %q", via.B.ID(), id)
+			return res
+		}
+		core.Add("pairs_with_named_downstream_session", 1)
+	}
+	callerAddr := via.CA.LocalAddr().String()
+	direct, proxied := t.CB[b].A, via.A
 	var d, q Outcome
 	nd := 0
+	upBefore := upstreamCounts(t, b)
 	if s.Op == "call" {
 		d = doCall(direct, t, s, pid)
 		if d.Stuck != "" {
@@ -795,6 +860,7 @@ func runPair(t *pxy.Topo, s *Spec) pairResult {
 			return res
 		}
 		nd = pl.Count(b)
+		t.TakeLabels()
 		q = doCall(proxied, t, s, pid)
 		if q.Stuck != "" {
 			res.inconclusive = "proxied call did not complete: " + q.Stuck
@@ -808,6 +874,7 @@ func runPair(t *pxy.Topo, s *Spec) pairResult {
 		}
 		pxy.WaitCount(func() bool { return pl.Count(b) >= 1 }, watchdog)
 		nd = pl.Count(b)
+		t.TakeLabels()
 		st = proxied.Push(methodOf(t, s), argOf(s), settingsOf(s, pid)...)
 		if !st.OK() {
 			res.inconclusive = "push to the proxy failed locally: " + st.String()
@@ -817,6 +884,8 @@ func runPair(t *pxy.Topo, s *Spec) pairResult {
 	}
 	obs := pl.Observations()
 	nq := pl.Count(b) - nd
+	labels := t.TakeLabels()
+	upAfter := upstreamCounts(t, b)
 	res.finalCount = len(obs)
 	core.Add("backend_invocations_observed", int64(len(obs)))
 	if nd > 1 {
@@ -841,6 +910,40 @@ func runPair(t *pxy.Topo, s *Spec) pairResult {
 			core.Add("direct_calls_failed_status", 1)
 		}
 	}
+	if nq >= 1 {
+		// what the forwarder function was told: the downstream session's id, the real IP, the service method
+		wantIP := callerAddr
+		if v := valuesOf(s.Meta, erpc.MetaRealIP); len(v) > 0 {
+			wantIP = v[0]
+		}
+		core.Add("labels_checked", int64(len(labels)))
+		if len(labels) != 1 {
+			res.viols = append(res.viols, viol{"label-count", fmt.Sprintf("the forwarder function was asked %d time(s) for one proxied request", len(labels)), nil})
+		} else {
+			l := labels[0]
+			if l.RealIP != wantIP {
+				res.viols = append(res.viols, viol{"label-realip", fmt.Sprintf("Label.RealIP = %q, want %q (downstream session id %q, caller address %q)", l.RealIP, wantIP, via.B.ID(), callerAddr), nil})
+			}
+			if l.SessionID != via.B.ID() {
+				res.viols = append(res.viols, viol{"label-sessionid", fmt.Sprintf("Label.SessionID = %q, the downstream session's id is %q", l.SessionID, via.B.ID()), nil})
+			}
+			if l.ServiceMethod != methodOf(t, s) {
+				res.viols = append(res.viols, viol{"label-method", fmt.Sprintf("Label.ServiceMethod = %q, the request's service method is %q", l.ServiceMethod, methodOf(t, s)), nil})
+			}
+		}
+		if n := len(upBefore); n > 1 {
+			// several upstream sessions keyed by the label's real IP: only the one for this caller may be used
+			want := pxy.UpstreamIndex(wantIP, n)
+			for k := range upBefore {
+				moved := upAfter[k] - upBefore[k]
+				if (k == want && moved != 1) || (k != want && moved != 0) {
+					res.viols = append(res.viols, viol{"upstream-choice", fmt.Sprintf("upstream session %d of %d is the one keyed by real IP %q, but the per-upstream request counters moved by %v", want, n, wantIP, diffCounts(upBefore, upAfter)), nil})
+					break
+				}
+			}
+			core.Add("upstream_choices_checked", 1)
+		}
+	}
 	if nd == 1 && nq >= 1 {
 		var od, oq pxy.Obs
 		seen := 0
@@ -855,7 +958,7 @@ func runPair(t *pxy.Topo, s *Spec) pairResult {
 			}
 			seen++
 		}
-		res.viols = append(res.viols, compareBackendView(t.CallerAddr(), od, oq)...)
+		res.viols = append(res.viols, compareBackendView(callerAddr, od, oq)...)
 		res.nontrivial = true
 	}
 	if len(res.viols) > 0 {
@@ -872,7 +975,11 @@ func runPair(t *pxy.Topo, s *Spec) pairResult {
 			for _, x := range []string{"status-differs", "body-differs", "codec-differs", "meta-differs", "meta-extra-key"} {
 				consequential[x] = true
 			}
-		} else if has["status-differs"] {
+		}
+		if has["realip"] {
+			consequential["label-realip"], consequential["upstream-choice"] = true, true
+		}
+		if !has["backend-invocations"] && has["status-differs"] {
 			for _, x := range []string{"body-differs", "codec-differs", "meta-differs", "meta-extra-key"} {
 				consequential[x] = true
 			}
@@ -885,7 +992,8 @@ func runPair(t *pxy.Topo, s *Spec) pairResult {
 		}
 		res.viols = primary
 		w := map[string]interface{}{"all_symptoms": all, "request": s, "request_meta": kvs(s.Meta), "request_body": trunc(s.Body), "handler_reply_meta": kvs(s.RMeta),
-			"backend_invocations_direct": nd, "backend_invocations_proxied": nq, "caller_address": t.CallerAddr()}
+			"backend_invocations_direct": nd, "backend_invocations_proxied": nq, "caller_address": callerAddr,
+			"downstream_session_id": via.B.ID(), "forwarder_labels": labels}
 		if s.Op == "call" {
 			w["direct"] = map[string]interface{}{"status": d.Triple, "result": trunc(d.Body), "reply_meta": kvs(d.RMeta), "reply_codec": d.RCodec}
 			w["proxied"] = map[string]interface{}{"status": q.Triple, "result": trunc(q.Body), "reply_meta": kvs(q.RMeta), "reply_codec": q.RCodec}
@@ -900,6 +1008,32 @@ func runPair(t *pxy.Topo, s *Spec) pairResult {
 		}
 	}
 	return res
+}
+
+// upstreamCounts returns the requests handled so far by each upstream session of a backend.
+func upstreamCounts(t *pxy.Topo, b int) []int64 {
+	var out []int64
+	for _, f := range t.Fwx[b] {
+		out = append(out, atomic.LoadInt64(&f.Calls)+atomic.LoadInt64(&f.Pushes))
+	}
+	return out
+}
+
+func diffCounts(a, b []int64) []int64 {
+	out := make([]int64, len(a))
+	for i := range a {
+		out[i] = b[i] - a[i]
+	}
+	return out
+}
+
+// loginCall calls the proxy peer's own login handler, which renames the caller's session.
+func loginCall(t *pxy.Topo, id string, got *string) (protos.Triple, string) {
+	cmd := t.CP.A.AsyncCall(t.LoginRoute, &id, got, make(chan erpc.CallCmd, 1))
+	if why := pxy.Await(cmd.Done(), watchdog); why != "" {
+		return protos.Triple{}, why
+	}
+	return protos.StatusTriple(cmd.Status()), ""
 }
 
 var emitted = map[string]int{}
@@ -945,7 +1079,7 @@ func runPairsGroup(gi int, g Group, only string) {
 	if g.Fwd == "multiclient" {
 		pxy.MinQuiet = 40 * time.Millisecond
 	}
-	t, err := pxy.Build(pxy.Options{Proto: g.Proto, FwdKind: g.Fwd})
+	t, err := pxy.Build(pxy.Options{Proto: g.Proto, FwdKind: g.Fwd, Upstreams: 3})
 	if err != nil {
 		id := fmt.Sprintf("g%03d", gi)
 		core.Begin(id, map[string]interface{}{"class": "topology", "proto": g.Proto, "forwarder": g.Fwd})
@@ -976,7 +1110,7 @@ func runPairsGroup(gi int, g Group, only string) {
 			pr.plan.Drop()
 			// the topology may be wedged: rebuild it
 			t.Close()
-			if t, err = pxy.Build(pxy.Options{Proto: g.Proto, FwdKind: g.Fwd}); err != nil {
+			if t, err = pxy.Build(pxy.Options{Proto: g.Proto, FwdKind: g.Fwd, Upstreams: 3}); err != nil {
 				core.Fatalf("rebuilding the topology: %v", err)
 			}
 			continue
@@ -1012,7 +1146,6 @@ func runPairsGroup(gi int, g Group, only string) {
 		}
 		k.pr.plan.Drop()
 	}
-	core.Add("forwarder_labels_seen", int64(len(t.Labels())))
 }
 
 // ---- failure scenarios ----
